@@ -268,6 +268,18 @@ def templates():
             t.append((["LazyStruct", [["h", B], ["z", lz], ["t", B]]], {"n": n}))
             t.append((["LazyArray", n + 1, lz], {"n": n}))
             t.append((["Struct", [["h", B], ["zs", ["LazyArray", 3, lz]], ["t", B]]], {"n": n}))
+    # a region that is assembled on its own while its inner construct moves about (a Pointer ahead / back, a backward Seek)
+    for n in (1, 2):
+        for inner in (["Struct", [["a", ["name", "Int16ub"]], ["far", ["Pointer", 5, B]]]], ["Struct", [["a", B], ["b", B], ["p", ["Pointer", 0, B]]]], ["Struct", [["x", ["Bytes", 3]], [None, ["Seek", -2, 1]], ["c", B]]],
+                      ["Struct", [["a", ["Bytes", ["this", "_", "_params", "n"]]], ["far", ["Pointer", 6, ["name", "Int16ub"]]]]]):
+            t.append((["Struct", [["h", B], ["f", ["FixedSized", 8, inner]], ["t", B]]], {"n": n}))
+            t.append((["Struct", [["h", B], ["f", ["Padded", 9, ["FixedSized", 8, inner]]], ["t", B]]], {"n": n}))
+    # a Sequence that stops early (StopIf) inside a sized wrapper: the enclosing structure goes on after the wrapper
+    for n in (0, 1):
+        stop = ["Sequence", [["x", B], [None, ["StopIf", ["bin", "==", ["this", "x"], 0]]], ["y", B], [None, ["StopIf", ["bin", "==", ["this", "y"], ["this", "_params", "n"]]]], ["z", B]]]
+        t.append((["Struct", [["a", ["Padded", 4, stop]], ["b", ["name", "Int16ub"]]]], {"n": n}))
+        t.append((["Struct", [["a", ["FixedSized", 5, stop]], ["b", ["Array", 2, ["FixedSized", 3, stop]]], ["c", B]]], {"n": n}))
+        t.append((["Sequence", [[None, ["Padded", 3, ["Struct", [["x", B], [None, ["StopIf", ["bin", "==", ["this", "x"], 0]]], ["y", B]]]]], [None, B]]], {"n": n}))
     # a Pointer told to work on another stream (the enclosing one) from inside a delimited region: both streams keep their positions
     for n in (1, 2, 3):
         for region in ("FixedSized", "Padded", "Prefixed"):
